@@ -1351,6 +1351,23 @@ func (s *BlockAttrsSpec) decode(content *hcl.BodyContent, blockLabels []blockLab
 		vals[name] = attrVal
 	}
 
+	var firstTy cty.Type
+	for _, v := range vals {
+		if firstTy == cty.NilType {
+			firstTy = v.Type()
+		} else if !firstTy.Equals(v.Type()) {
+			// Only possible with a dynamically-typed ElementType; a map
+			// cannot hold values of different types.
+			diags = append(diags, &hcl.Diagnostic{
+				Severity: hcl.DiagError,
+				Summary:  "Inconsistent attribute types",
+				Detail:   fmt.Sprintf("All attributes of a %q block must have the same type.", s.TypeName),
+				Subject:  &block.DefRange,
+			})
+			return cty.UnknownVal(cty.Map(s.ElementType).WithoutOptionalAttributesDeep()), diags
+		}
+	}
+
 	return cty.MapVal(vals), diags
 }
 
